@@ -267,8 +267,8 @@ bool resolve_expected(const RUri &base, const RUri &r, bool strict, Expected &e)
         std::vector<Str> E = remove_dots_list(split_path(pre), false);
         e.path = join_path(E);
         // a host-less text that starts with "//" would be read back as an authority: there the '.' segment is required, not optional
-        if (E.size() > 2 && E[0].empty() && E[1].empty()) e.path = "./" + e.path;
-        else if (E.size() > 1 && E[0].empty()) { e.has_alt = true; e.alt_path = "./" + e.path; }
+        // the kind-preserving spelling (leading "./") is the canonical one; the bare list is tolerated only where its text starts with a single '/'
+        if (E.size() > 1 && E[0].empty()) { if (!(E.size() > 2 && E[1].empty())) { e.has_alt = true; e.alt_path = e.path; } e.path = "./" + e.path; }
         e.t.path = e.path;
         return true;
     }
